@@ -58,13 +58,13 @@ Section Quiet.
                       tok_act fo pr rf f t s2 = ROk tt y.
 
   Lemma ctx5_word_cases n : ctx5_word n = true ->
-    n = "#(" \/ n = "#)" \/ n = "~)" \/ n = "const" \/ n = "immediate".
+    n = "#(" \/ n = "#)" \/ n = "~)" \/ n = "const" \/ n = "immediate" \/ enum_native n = true.
   Proof.
     unfold ctx5_word. intros H. apply orb_true_iff in H. destruct H as [H|H].
     - apply orb_true_iff in H. destruct H as [H|H].
-      + destruct (ctx_word_cases n H) as [E|[E|E]]; auto.
-      + apply String.eqb_eq in H. auto.
-    - apply String.eqb_eq in H. auto 6.
+      + destruct (ctx_word_cases n H) as [E|[E|[E|E]]]; auto 7.
+      + apply String.eqb_eq in H. auto 7.
+    - apply String.eqb_eq in H. auto 7.
   Qed.
 
   Lemma i_const_not_meta s : cmode (cx s) <> MMeta -> forall s', i_const pr s <> ROk tt s'.
@@ -77,11 +77,12 @@ Section Quiet.
     rewrite (not_meta_eqb _ Hm) in E. discriminate.
   Qed.
 
-  Lemma cls5_build_word f name s s' : Pre5 s -> build_word fo pr rf f name s = ROk tt s' ->
+  Lemma cls5_build_word f name s s' : enum_tok s (BWord name) = false ->
+    Pre5 s -> build_word fo pr rf f name s = ROk tt s' ->
     R5 s s' \/ s' = opened s \/
     exists len, dict_entry s name = Some (DFun true (FNative "immediate") len).
   Proof.
-    intros P E. pose proof P as (Hm & _ & _ & Hn).
+    intros Hne P E. pose proof P as (Hm & _ & _ & Hn). cbn [enum_tok] in Hne.
     assert (Q : forall op, code_emit op s = ROk tt s' -> R5 s s').
     { intros op Eo.
       pose proof (fp5_quiet _ _ (scorep_code_emit op) (cdp_code_emit op) (dictp_code_emit op) s P) as H.
@@ -93,7 +94,7 @@ Section Quiet.
     - unfold run_immediate in E.
       destruct (immediate_fn fo pr rf f n) as [w|] eqn:Ei; [|discriminate].
       destruct (ctx5_word n) eqn:Ec.
-      + destruct (ctx5_word_cases n Ec) as [ -> | [ -> | [ -> | [ -> | -> ] ] ] ].
+      + destruct (ctx5_word_cases n Ec) as [ -> | [ -> | [ -> | [ -> | [ -> | C ] ] ] ] ]; [| | | | |congruence].
         * assert (E0 : immediate_fn fo pr rf f "#(" = Some i_nested_begin) by reflexivity.
           rewrite E0 in Ei. injection Ei as <-. unfold i_nested_begin in E. rewrite context_open_meta in E.
           injection E as <-. right. left. reflexivity.
@@ -109,14 +110,14 @@ Section Quiet.
       + left. pose proof (fp5_immediate_fn fo pr rf f n w Ei Ec s P) as H. rewrite E in H. exact H.
   Qed.
 
-  Lemma cls5_tok_act f t s s' : Pre5 s -> tok_act fo pr rf f t s = ROk tt s' ->
+  Lemma cls5_tok_act f t s s' : enum_tok s t = false -> Pre5 s -> tok_act fo pr rf f t s = ROk tt s' ->
     R5 s s' \/ s' = opened s \/ imm_use t s.
   Proof.
-    intros P E. destruct t as [|name|v]; cbn [tok_act] in E.
+    intros Hne P E. destruct t as [|name|v]; cbn [tok_act] in E.
     - injection E as <-. left. apply R5_refl. exact P.
     - unfold bind, get in E.
       assert (B : build_word fo pr rf f name s = ROk tt s' -> R5 s s' \/ s' = opened s \/ imm_use (BWord name) s).
-      { intros Eb. destruct (cls5_build_word f name s s' P Eb) as [H|[H|(len & H)]]; auto.
+      { intros Eb. destruct (cls5_build_word f name s s' Hne P Eb) as [H|[H|(len & H)]]; auto.
         right. right. exists name, len. split; [reflexivity|exact H]. }
       destruct (top_function_flow s) as [[[d st] ls]|]; [|exact (B E)].
       destruct (rposition ls name 0 None); [|exact (B E)].
@@ -132,13 +133,13 @@ Section Quiet.
   Theorem tstep_cls5 f s s' : Pre5 s -> tstep fo pr rf f s s' ->
     R5 s s' \/ (exists s2, R5 s s2 /\ s' = opened s2) \/ imm_step s s'.
   Proof.
-    intros P (s1 & t & s2 & E1 & E2 & Ht & E3).
+    intros P (s1 & t & s2 & E1 & E2 & Ht & Hne & E3).
     pose proof (pre_run_not_meta s (proj1 P)) as E0. rewrite E0 in E1. injection E1 as <-.
     pose proof (fp5_quiet _ _ (scorep_get_token pr) (cdp_get_token pr)
                           (dictp_corep _ _ (corep_get_token pr)) s P) as H2.
     rewrite E2 in H2. cbn [res_all F5 fr_rel] in H2.
     pose proof (R5_keep _ _ P H2) as P2.
-    destruct (cls5_tok_act f t s2 s' P2 E3) as [H|[H|H]].
+    destruct (cls5_tok_act f t s2 s' Hne P2 E3) as [H|[H|H]].
     - left. eapply R5_trans; eassumption.
     - right. left. exists s2. split; assumption.
     - right. right. exists f, s, t, s2. repeat split; assumption.
@@ -231,16 +232,17 @@ Section Quiet.
 
   Theorem compile_quiet fuel src s s' :
     wfm s -> cd_inv s -> no_user_imm (dict s) ->
+    enum_free fo pr rf fuel (interned src (copened s)) ->
     compile fo pr rf fuel src s = ROk tt s' ->
     (ds s' = ds s /\ exists k, heap s' = heap s ++ repeat CNil k) \/
     (exists y z, bpath fo pr rf 0 (interned src (copened s)) y /\ depth y = S (depth s) /\ imm_step y z).
   Proof.
-    intros W Hcd Hn E. unfold compile, build_from_source in E. cbv zeta in E.
+    intros W Hcd Hn EF E. unfold compile, build_from_source in E. cbv zeta in E.
     rewrite compile_open in E.
     set (s1 := interned src (copened s)) in *.
     pose proof (Pre5_copened src s W Hcd Hn) as P1. fold s1 in P1.
     destruct (build1 fo pr rf fuel (length (nested s1)) s1) as [[] s2|? ? ?| |] eqn:Eb; try discriminate.
-    destruct (build1_path fo pr rf _ _ _ _ Eb) as (x & x1 & Hb & E1 & E2 & Dd & _).
+    destruct (build1_path fo pr rf _ _ _ _ EF Eb) as (x & x1 & Hb & E1 & E2 & Dd & _).
     (* pre_run and get_token do not change the context stack *)
     assert (Dx : depth x = depth s1).
     { pose proof (scorep_get_token pr x1) as S2. rewrite E2 in S2. cbn [res_all] in S2.
@@ -293,14 +295,15 @@ Section Quiet.
   (* the build phase of eval / compile: nothing is executed outside meta blocks *)
   Theorem build_quiet m fuel src s s2 :
     m <> MMeta -> wfm s -> cd_inv s -> no_user_imm (dict s) ->
+    enum_free fo pr rf fuel (interned src (mopened m s)) ->
     build1 fo pr rf fuel (S (depth s)) (interned src (mopened m s)) = ROk tt s2 ->
     R5 (interned src (mopened m s)) s2 \/
     (exists y z, bpath fo pr rf 0 (interned src (mopened m s)) y /\ depth y = S (depth s) /\ imm_step y z).
   Proof.
-    intros Hm W Hcd Hn Eb.
+    intros Hm W Hcd Hn EF Eb.
     set (s1 := interned src (mopened m s)) in *.
     pose proof (Pre5_mopened m src s Hm W Hcd Hn) as P1. fold s1 in P1.
-    destruct (build1_path fo pr rf _ _ _ _ Eb) as (x & x1 & Hb & E1 & E2 & Dd & _).
+    destruct (build1_path fo pr rf _ _ _ _ EF Eb) as (x & x1 & Hb & E1 & E2 & Dd & _).
     assert (Dx : depth x = depth s1).
     { pose proof (scorep_get_token pr x1) as S2. rewrite E2 in S2. cbn [res_all] in S2.
       unfold score in S2. injection S2 as _ N2 _ _ _ _ _ _.
@@ -326,6 +329,7 @@ Section Quiet.
   (* eval = the quiet build phase followed by the run of the compiled code *)
   Theorem eval_phases fuel src s s' :
     wfm s -> cd_inv s -> no_user_imm (dict s) ->
+    enum_free fo pr rf fuel (interned src (mopened MEval s)) ->
     eval fo pr rf fuel src s = ROk tt s' ->
     (exists s2 s3,
        build1 fo pr rf fuel (S (depth s)) (interned src (mopened MEval s)) = ROk tt s2 /\
@@ -334,12 +338,12 @@ Section Quiet.
        s' = set_cx s3 (if mode_eqb (cmode (cx s)) MEval then set_ctx_ip (cx s) (ip s3) else cx s)) \/
     (exists y z, bpath fo pr rf 0 (interned src (mopened MEval s)) y /\ depth y = S (depth s) /\ imm_step y z).
   Proof.
-    intros W Hcd Hn E. unfold eval, build_from_source in E. cbv zeta in E.
+    intros W Hcd Hn EF E. unfold eval, build_from_source in E. cbv zeta in E.
     rewrite build_open in E.
     set (s1 := interned src (mopened MEval s)) in *.
     change (length (nested s1)) with (S (depth s)) in E.
     destruct (build1 fo pr rf fuel (S (depth s)) s1) as [[] s2|? ? ?| |] eqn:Eb; try discriminate.
-    destruct (build_quiet MEval fuel src s s2 ltac:(discriminate) W Hcd Hn Eb) as [H|H]; [|right; exact H].
+    destruct (build_quiet MEval fuel src s s2 ltac:(discriminate) W Hcd Hn EF Eb) as [H|H]; [|right; exact H].
     left. pose proof H as (N & C & _).
     unfold context_close in E. rewrite N in E.
     cbn [interned mopened set_input set_sources set_nested nested] in E. cbv zeta in E.
